@@ -627,16 +627,18 @@ def select__insert_before(self: XPathFunction, context: ta.ContextType = None) \
 
     position = self.get_argument(context, 1, required=True, cls=int)
     insert_at_pos = max(0, position - 1)
+    # evaluated before the iteration over $target, that can have an inner focus active
+    inserts = [x for x in self[2].select(context)]
 
     inserted = False
     for pos, result in enumerate(self[0].select(context)):
         if not inserted and pos == insert_at_pos:
-            yield from self[2].select(context)
+            yield from inserts
             inserted = True
         yield result
 
     if not inserted:
-        yield from self[2].select(context)
+        yield from inserts
 
 
 @method(function('index-of', nargs=(2, 3), sequence_types=(
